@@ -354,6 +354,13 @@ func (q *seqRun) step(o *Op, stepNo int) []finding {
 				if p, err := q.c.Build(); err == nil {
 					_ = p.Close()
 					q.stats["refused_builds_that_succeeded"]++
+					// whether this set is to be refused is C07's / C08's business; that the verdict
+					// is a function of the registrations the collection holds NOW is C17's: a fresh
+					// collection holding exactly the surviving registrations must get the same one
+					if ok, decided := q.twinBuilds(); decided && !ok {
+						fs = append(fs, finding{"history-affects-build", "C17/history-affects-build:set-accepted-that-a-fresh-collection-refuses",
+							fmt.Sprintf("Build succeeds after %s, while a fresh collection holding exactly the surviving registrations %s is refused: a registration that was removed - or what an earlier Build of this collection concluded - has an effect on this Build", o, q.s)})
+					}
 				} else {
 					q.stats["refused_builds"]++
 					// this file's own reference counts every dependency as required; the model of
@@ -708,6 +715,12 @@ func refusedBuildSequences() [][]*Op {
 		// a cycle: refused; broken by removing one service; the next collection uses the same types
 		{add("scoped", "PosA_0_2"), add("scoped", "PosA_1_1"), b, {Kind: "remove", Type: "K1"}, add("scoped", "Leaf_K1_a"), b},
 		{add("singleton", "Leaf_K1_a"), add("singleton", "PosA_0_2"), b},
+		// a Build that passes, then ONLY a removal (no registration in between), then Build: the
+		// dependency that went away is missed (plain, keyed, of a singleton / scoped / transient consumer)
+		{add("scoped", "Leaf_K0_a"), add("scoped", "PosA_1_1"), b, {Kind: "remove", Type: "K0"}, b, b},
+		{add("singleton", "Leaf_K0_a"), add("transient", "PosA_1_1"), b, b, {Kind: "remove", Type: "K0"}, b, add("scoped", "Leaf_K0_b"), b},
+		{add("singleton", "Leaf_K0_a"), add("singleton", "PosA_1_1"), b, {Kind: "remove", Type: "K0"}, b},
+		{add("scoped", "Leaf_K1_c", "name=k"), add("scoped", "InU_0_2_Keyed"), b, {Kind: "removeKeyed", Type: "K1", Key: "k"}, b},
 	}
 }
 
